@@ -29,4 +29,4 @@ for _s in _c18.P.fns:
 P.assume(*_c04.P.assumptions)
 P.bound('permutations', 'dyn/C08.py', 'permutations', 'random economies with the sector declarations permuted: 20 (quick) / 400 (thorough) + all 720 '
         'permutations of model SIM (thorough)', 'series-level independence of the declaration order')
-P.bound('catalogue', 'dyn/C08.py', 'catalogue', 'the two-dividend-payers topology under 3 fixed permutations', 'the same statement on the topology of the known finding F8')
+P.bound('catalogue', 'dyn/C08.py', 'catalogue', 'the two-dividend-payers topology under 3 fixed permutations', 'the same statement on the topology of finding F8 (repaired)')
